@@ -33,6 +33,13 @@ RETS = ["none", "true", "false", "cont", "halt", "remove", "haltremove"]
 PRIOS = [0, 5, -1, 0]
 
 
+class ScriptedAbort (BaseException):
+  """A handler failure that is not an Exception subclass (as SystemExit or
+  KeyboardInterrupt are): "never propagates a handler's exception" has no
+  carve-out for those."""
+  pass
+
+
 class MonitorFired (Exception):
   pass
 
@@ -220,7 +227,7 @@ class World (object):
           rv = f(ev, 7, k=8)
         else:
           rv = f(T, 3, y=4)
-      except Exception as e:
+      except (Exception, ScriptedAbort) as e:
         exc = e
     finally:
       R.handleEventException = saved
@@ -343,7 +350,11 @@ class World (object):
         if len(self.stack) < 4:
           self.do_raise(s.type if t == "same" else t, form, noerr, inside=True)
       elif op == "exc":
-        e = RuntimeError("scripted failure in #%d" % s.sid)
+        if len(act) > 1 and act[1] == "base":
+          e = ScriptedAbort("scripted non-Exception failure in #%d" % s.sid)
+          self.rep.count("handler_base_exceptions")
+        else:
+          e = RuntimeError("scripted failure in #%d" % s.sid)
         d.aborted = e
         if s.once or False:
           pass
@@ -466,6 +477,7 @@ def behaviours ():
   for r in ("none", "true", "remove", "haltremove", "false"):
     B.append([[["ret", r]]])
   B.append([[["exc"]]])
+  B.append([[["exc", "base"]]])
   for prio in (0, 5, -1):
     B.append([[["sub", "same", prio, False, []], ["ret", "none"]]])
   B.append([[["sub", "same", 5, True, []], ["ret", "none"]]])
@@ -514,7 +526,7 @@ def rand_script (rng, depth):
                      rng.choice(["instance", "class", "instance_args"]),
                      rng.random() < 0.5])
       else:
-        step.append(["exc"])
+        step.append(["exc"] if rng.random() < 0.7 else ["exc", "base"])
     step.append(["ret", rng.choice(RETS + ["none", "none", "none"])])
     out.append(step)
   return out
